@@ -60,7 +60,8 @@ impl Lexer {
 //%sub1 "collect: &mut Option<String>" => "collect: &mut Option<VpString>" # R-shim: String stand-in
 //%sub1 "let Some(s) = collect.as_mut() else { return Err(LexerError::IllegalState(\"collect is None\")); }; s.push(ch); Ok(())" => "match collect { Some(s) => { s.push(ch); Ok(()) } None => Err(LexerError::IllegalState(\"collect is None\")) }" # R-shim: `let Some(s) = o.as_mut() else { return E }; B` written as the match it denotes (Option::as_mut)
 //%contract
-        ensures (*final(collect) is Some) == (*old(collect) is Some)
+        ensures (*final(collect) is Some) == (*old(collect) is Some),
+            *old(collect) matches Some(s0) ==> (r is Ok && final(collect).unwrap().v@ == s0.v@.push(ch)),
 //%end
 //%fn crates/proto/src/serialize/txt/zone_lex.rs :: impl<'a> Lexer<'a> :: escape_seq
 //%sub "ch.is_control()" => "vp_ctl(ch)" # R-shim: char class
@@ -96,6 +97,10 @@ pub open spec fn rank(st: State, t: VpPeekable) -> nat {
         State::Blank => 0, State::At => 0, State::Quote => 0, State::Dollar => 0, State::EOF => 0,
     }
 }
+// an unquoted token (CharData) consists of characters that do not end a token: no whitespace, no `)`, no `;`
+// (so a comment is never glued onto the field before it, and a list's closing parenthesis is not swallowed)
+pub open spec fn token_chars(s: Seq<char>) -> bool { forall|i: int| 0 <= i < s.len() ==> !stops_char_data(#[trigger] s[i]) }
+pub open spec fn opt_token_chars(o: Option<VpString>) -> bool { o matches Some(x) ==> token_chars(x.v@) }
 // String helpers used by next_token
 pub fn vp_take_or_empty(o: &mut Option<VpString>) -> (r: VpString) ensures *final(o) is None { match o.take() { Some(s) => s, None => VpString::new() } }
 // `match dollar.as_str() { "INCLUDE" => .., "ORIGIN" => .., "TTL" => .., _ => .. }`: which of the three words, if any
@@ -125,9 +130,16 @@ impl Lexer {
 //%attr #[verifier::rlimit(60)]
 //%closure "|s|"
 |s: VpString| -> (o: Option<Token>)
+//%before "char_data_vec .as_mut() .ok_or(LexerError::IllegalState(\"char_data_vec is None\"))"
+                                assert(opt_token_chars(char_data));     // ... also when it becomes an item of a parenthesised list
+//%before "return match char_data.take() { Some(s) => Ok(Some(Token::CharData(s))),"
+                                assert(opt_token_chars(char_data));     // C20: the unquoted token handed out holds token characters only
 //%after "loop"
-            invariant self.txt.wf(), self.txt.s == old(self).txt.s
+            invariant self.txt.wf(), self.txt.s == old(self).txt.s,
+                // while an unquoted token is being collected, everything collected so far is token characters
+                self.state is CharData ==> opt_token_chars(char_data),
             decreases self.txt.s@.len() - self.txt.at, rank(self.state, self.txt)
+//%mutant semicolon_ends_a_token_only_in_lists "|| ch == ')' || ch == ';'" => "|| (is_list && (ch == ')' || ch == ';'))"
 //%mutant comment_never_advances "Some(_) => { self.txt.next(); }" => "Some(_) => { }"
 //%mutant list_and_chardata_ping_pong "Some(ch) if ch.is_whitespace() => { self.txt.next(); }"@2 => "Some(ch) if ch.is_whitespace() => { self.state = State::CharData { is_list: true }; }"
 //%contract
